@@ -15,15 +15,16 @@ Fold(ch) == IF ch = 2 THEN <<1>> ELSE IF ch = 6 THEN <<7, 7>> ELSE <<ch>>
 MCDefaultDelim == <<4>>
 Delims == {<<4>>}
 PPool == IF Tier = "quick" THEN {<<1>>, <<2>>, <<6>>, <<7, 7>>} ELSE {<<>>, <<1>>, <<2>>, <<6>>, <<7, 7>>}
-UPool == IF Tier = "quick" THEN {<<1>>, <<2>>, <<1, 3>>} ELSE {<<>>, <<1>>, <<2>>, <<1, 3>>}
+UPool == IF Tier = "quick" THEN {<<1>>, <<2>>, <<1, 3>>, <<3>>} ELSE {<<>>, <<1>>, <<2>>, <<1, 3>>}
 Opt(S) == {{}} \cup {{x} : x \in S}
 ValidPool == {r \in {Rec(p, u, ps, us, NoPat) : p \in PPool, u \in UPool, ps \in Opt(PPool), us \in Opt(UPool)} : ValidRec(r)}
 \* arguments of add_record: no synonyms in the thorough tier to keep the branching finite
 \* Wide = TRUE: every record with at most one synonym per side as argument AND as starting converter (used with MaxOps = 1:
 \* wide and shallow); Wide = FALSE: the narrow pools below (deep)
 OneSyn == {r \in ValidPool : r.ps = {} \/ r.us = {}}
+NoB(r) == r.u # <<3>> /\ <<3>> \notin r.us            \* the deep instance does without the fourth URI string
 ArgPool == IF Wide THEN OneSyn ELSE IF Tier = "quick"
-           THEN {r \in ValidPool : r.ps = {} /\ r.us = {}}
+           THEN {r \in ValidPool : r.ps = {} /\ r.us = {} /\ NoB(r)}
                 \cup {r \in ValidPool : r.us = {} /\ r.ps = {<<2>>} /\ r.p = <<1>>}
                 \cup {r \in ValidPool : r.ps = {} /\ r.us = {<<2>>} /\ r.u = <<1>>}
                 \cup {r \in ValidPool : r.us = {} /\ r.ps = {<<7, 7>>} /\ r.p = <<6>> /\ r.u = <<1, 3>>}
@@ -34,7 +35,7 @@ Probes == StringsUpTo({1, 2, 3, 4}, 2)
 
 MCNext ==
   \/ /\ Len(hist) = 0
-     /\ \E d \in Delims : ANew(<<>>, d) \/ \E r \in (IF Wide \/ Tier # "quick" THEN ValidPool ELSE ArgPool) : ANew(<<r>>, d)
+     /\ \E d \in Delims : ANew(<<>>, d) \/ \E r \in (IF Wide THEN OneSyn ELSE IF Tier # "quick" THEN ValidPool ELSE ArgPool) : ANew(<<r>>, d)
   \/ /\ Len(hist) >= 1 /\ Len(hist) <= MaxOps /\ Len(convs) = 1
      /\ \E r \in ArgPool, cs \in BOOLEAN, mg \in BOOLEAN : AAdd(1, r, cs, mg, "record")
 MCSpec == Init /\ [][MCNext]_vars
